@@ -152,7 +152,7 @@ class Group:
             return self._confirm(desc, goal, assum, res, pairs, tol)
         return self._rec(desc, "inconclusive", time=round(res.time, 3), detail=f"solver: {res.verdict} {res.reason}")
 
-    def rat_eq(self, desc, lhs, rhs, split=None, assumptions=(), timeout_ms=None, base=True, subst=()):
+    def rat_eq(self, desc, lhs, rhs, split=None, assumptions=(), timeout_ms=None, base=True, subst=(), paths=None):
         """obligation lhs == rhs between rational functions of the real variables, for ALL values of the integer
         index variables in `split` (dict var -> iterable of ints; exhaustive case split, the cases are substituted and
         simplified so that index `ite`s disappear) and all real values satisfying the assumptions."""
@@ -170,7 +170,7 @@ class Group:
             # several identities under one obligation
             worst = None
             for l_, r_ in zip(lhs, rhs):
-                rec = self.rat_eq(desc, l_, r_, split, assumptions, timeout_ms, base, subst)
+                rec = self.rat_eq(desc, l_, r_, split, assumptions, timeout_ms, base, subst, paths)
                 if rec["verdict"] != "proved":
                     return rec
                 self.records.pop()
@@ -185,16 +185,19 @@ class Group:
                 continue            # this index combination is excluded by the assumptions
             A = [a for a in A if not z3.is_true(a)]
             l, r = z3.simplify(l), z3.simplify(r)
-            if solve.has_ite(l) or solve.has_ite(r):
-                l, r = solve.resolve_ites(l, A), solve.resolve_ites(r, A)
-            res = solve.prove_rat_eq(l, r, A, timeout_ms=timeout_ms, subst=subst)
-            n += 1
-            t_tot += res.time
-            if res.verdict != "unsat":
-                # hand the failing case to the general path (replay / inconclusive reporting)
-                eqs = [v == c for v, c in zip(vs, combo)]
-                return self.holds(desc, z3.Implies(z3.And(*eqs) if eqs else z3.BoolVal(True), lhs == rhs), assumptions,
-                                  timeout_ms=timeout_ms, base=base)
+            for path in (paths or [[]]):
+                Ap = A + list(path)
+                lp, rp = l, r
+                if solve.has_ite(lp) or solve.has_ite(rp):
+                    lp, rp = solve.resolve_ites(lp, Ap), solve.resolve_ites(rp, Ap)
+                res = solve.prove_rat_eq(lp, rp, Ap, timeout_ms=timeout_ms, subst=subst)
+                n += 1
+                t_tot += res.time
+                if res.verdict != "unsat":
+                    # hand the failing case to the general path (replay / inconclusive reporting)
+                    eqs = [v == c for v, c in zip(vs, combo)] + list(path)
+                    return self.holds(desc, z3.Implies(z3.And(*eqs) if eqs else z3.BoolVal(True), lhs == rhs), assumptions,
+                                      timeout_ms=timeout_ms, base=base)
         return self._rec(desc, "proved", time=round(t_tot, 4), detail=f"{n} index case(s), rational normal form + solver")
 
     def _structure_ok(self, pairs):
